@@ -52,6 +52,7 @@ fn valid_connection(rng: &mut Rng) -> (Vec<u8>, usize) {
             tag_base: i as u8,
             extras_pre: &gen::EXTRAS_PRE_REPLIES,
             extras_stream: &gen::EXTRAS_STREAM_REPLIES,
+            marker: None,
         };
         gen::push_request(rng, &mut bytes, &spec);
     }
